@@ -22,7 +22,7 @@ SPEC = dict(
         "initial {pep440_version} text is what bumpver itself renders for the current version (setup only)",
         "one case in eight is a legacy {..} layout (decorated {version} patterns, own and shared lines, LF/CRLF/CR)",
     ],
-    required=["update_ok", "show_ok", "updates_of_files_with_bom_and_start_anchored_pattern", "updates_with_a_literal_digit_before_a_part", "updates_with_config_file_listed_under_another_spelling", "updates_where_a_pattern_also_matches_inside_another_occurrence", "updates_with_listed_config_file_lacking_the_own_line_pattern", "set_version_in_noncanonical_spelling", "updates_with_repeated_pattern_in_mixed_eol_file", "aliased_path_entry_updates", "updates_with_end_anchored_patterns", "shared_line_updates", "updates_with_a_pattern_on_several_lines",
+    required=["update_ok", "show_ok", "updates_with_a_section_quoted_inside_a_value", "updates_of_files_with_bom_and_start_anchored_pattern", "updates_with_a_literal_digit_before_a_part", "updates_with_config_file_listed_under_another_spelling", "updates_where_a_pattern_also_matches_inside_another_occurrence", "updates_with_listed_config_file_lacking_the_own_line_pattern", "set_version_in_noncanonical_spelling", "updates_with_repeated_pattern_in_mixed_eol_file", "aliased_path_entry_updates", "updates_with_end_anchored_patterns", "shared_line_updates", "updates_with_a_pattern_on_several_lines",
               "legacy_updates_ok", "legacy_shared_line_updates"],
     anchors=[("parse", "iter_matches"), ("v2rewrite", "rewrite_lines"), ("v2patterns", "normalize_pattern"),
              ("config", "_parse_raw_config")],
@@ -53,6 +53,10 @@ def cases(ctx):
                 if ctx.mine(k):
                     yield {"kind": "bom", "legacy": legacy, "eol": eol, "dollar": dollar}
                 k += 1
+    for qi in range(3):
+        if ctx.mine(k):
+            yield {"kind": "quoted", "i": qi}
+        k += 1
     for gi in range(len(GLUED)):
         for eol in ("\n", "\r\n"):
             if ctx.mine(k):
@@ -78,6 +82,83 @@ GLUED = [
     ("YYYY.0M.INC0", "2021.05.3", ["--date", "2022-06-01"], "2022.06.0", "date: 20YY-0M", "date: 2021-05", "date: 2022-06"),
     ("vYYYY.MM.DD", "v2021.5.9", ["--date", "2022-06-07"], "v2022.6.7", "day 0DD of 0MM", "day 09 of 05", "day 07 of 06"),
 ]
+
+
+QUOTED_TOML = """[project]
+name = "demo"
+version = "1.0.0"
+description = \"\"\"
+Example configuration for users of this plugin:
+
+[bumpver]
+current_version = "2021.1001"
+version_pattern = "YYYY.BUILD"
+\"\"\"
+
+[tool.bumpver]
+current_version = "1.0.0"
+version_pattern = "MAJOR.MINOR.PATCH"
+
+[tool.bumpver.file_patterns]
+"pyproject.toml" = ['^version = "{version}"']
+"README.md" = ["Version {version}"]
+"""
+QUOTED_CFG = """[metadata]
+name = demo
+long_description =
+    Put this into your setup.cfg:
+    [bumpver]
+    current_version = 0.1.0
+    version_pattern = MAJOR.MINOR.PATCH
+
+[bumpver]
+current_version = 1.0.0
+version_pattern = MAJOR.MINOR.PATCH
+
+[bumpver:file_patterns]
+README.md =
+    Version {version}
+"""
+SELF_QUOTING = """[bumpver]
+version_pattern = "MAJOR.MINOR.PATCH"
+tag_message = \"\"\"
+release {new_version}
+current_version: was 0.9.0 when this template was written
+\"\"\"
+current_version = "1.0.0"
+
+[bumpver.file_patterns]
+"README.md" = ["Version {version}"]
+"""
+
+
+def run_quoted(ctx, case):
+    """a multi-line value of the config file QUOTES something that looks like a bumpver section / a current_version key:
+    the line bumpver itself reads current_version from is the one that has to show the announced version"""
+    name, text, key_line = [("pyproject.toml", QUOTED_TOML, 'current_version = "{v}"'), ("setup.cfg", QUOTED_CFG, "current_version = {v}"),
+                            ("bumpver.toml", SELF_QUOTING, 'current_version = "{v}"')][case["i"]]
+    d = harness.new_project({name: text.encode(), "README.md": b"# demo\n\nVersion 1.0.0\n"})
+    try:
+        before = harness.snapshot(d)
+        res = harness.invoke(["update", "--no-fetch", "--patch"], cwd=d)
+        after = harness.snapshot(d)
+        ctx.count("updates_with_a_section_quoted_inside_a_value")
+        ctx.evaluated(("quoted-section", name), sample={"config": name, "exit": res.exit_code})
+        if res.exit_code != 0:
+            if after != before:
+                ctx.violation("other:failed_update_changed_files", f"{name}: exit {res.exit_code}, changed "
+                              f"{harness.diff_snapshots(before, after)}", case=case)
+            return      # refusing such a file loudly is fine
+        lines = after[name].decode().splitlines()
+        if key_line.format(v="1.0.1") not in lines or key_line.format(v="1.0.0") in lines:
+            ctx.violation("other:config_current_version_differs_from_announced_version", f"{name}: update announced "
+                          f"{res.record_value('New Version: ')!r} and exited 0, the key line still reads "
+                          f"{[ln for ln in lines if ln.startswith('current_version')]}", case=case)
+        s2 = harness.invoke(["show", "--no-fetch"], cwd=d)
+        if s2.exit_code != 0 or s2.stdout_value("Current Version: ") != "1.0.1":
+            ctx.violation("other:show_disagrees", f"{name}: show after the update: exit {s2.exit_code} {s2.stdout!r}", case=case)
+    finally:
+        harness.rm_dir(d)
 
 
 def run_bom(ctx, case):
@@ -227,6 +308,8 @@ def run_case(ctx, case):
         return run_glued(ctx, case)
     if case.get("kind") == "bom":
         return run_bom(ctx, case)
+    if case.get("kind") == "quoted":
+        return run_quoted(ctx, case)
     if case.get("kind") == "inner-match":
         return run_inner(ctx, case)
     R = random.Random(case["pseed"])
